@@ -365,6 +365,12 @@ func (P *Prog) installReviewedParent() {
 			if okAll && parent != nil && parent != f && P.helpersOf(parent)[f] {
 				out = anchorName(parent)
 			}
+			if out == "" {
+				// only ever started as a goroutine / handed out as a method value by one function
+				if gp := (&Ctx{P: P}).goParent(f); gp != nil && gp != f {
+					out = anchorName(gp)
+				}
+			}
 		}
 		memo[name] = out
 		return out
@@ -458,6 +464,91 @@ func (c *Ctx) siteInRoot(root *ssa.Function, in ssa.Instruction) ssa.Instruction
 			return nil
 		}
 		cur = sites[0]
+	}
+	return nil
+}
+
+// resolveR: resolve, and through a parameter of a private helper of root (with one call site) to the argument
+func (c *Ctx) resolveR(root *ssa.Function, v ssa.Value) ssa.Value {
+	for hops := 0; hops < 4; hops++ {
+		v = resolve(v)
+		prm, ok := v.(*ssa.Parameter)
+		if !ok || prm.Parent() == root || !c.helpersOf(root)[prm.Parent()] {
+			return v
+		}
+		sites := c.callsIn2(root, prm.Parent())
+		if len(sites) != 1 {
+			return v
+		}
+		idx := -1
+		for i, q := range prm.Parent().Params {
+			if q == prm {
+				idx = i
+			}
+		}
+		if idx < 0 || idx >= len(sites[0].Common().Args) {
+			return v
+		}
+		v = sites[0].Common().Args[idx]
+	}
+	return resolve(v)
+}
+
+// errNilEdgesInRoot: the branch edges *of root* that mean "the error of call s is nil" (wantNil) resp. "is not nil". When s
+// stands in a private helper of root whose own error result is equivalent to the error of s — nil exactly when that is: it
+// is returned as it is, or a nil constant only through the nil edge and a certainly non-nil value only through the non-nil
+// edge — the call of the helper stands for s, up the helper chain. errIdx is the index of the error among s's results.
+func (c *Ctx) errNilEdgesInRoot(root *ssa.Function, s ssa.CallInstruction, errIdx int, wantNil bool) map[*ssa.BasicBlock]int {
+	cur := s
+	idx := errIdx
+	for hops := 0; hops < 4; hops++ {
+		f := cur.Parent()
+		errv := resultOf(cur.Value(), idx)
+		if cur.Value() != nil && cur.Common().Signature().Results().Len() == 1 {
+			errv = cur.Value()
+		}
+		if f == root {
+			return nilEdges(errv, wantNil)
+		}
+		if !c.helpersOf(root)[f] || errv == nil {
+			return nil
+		}
+		nres := f.Signature.Results().Len()
+		if nres == 0 || !isErrorType(f.Signature.Results().At(nres-1).Type()) {
+			return nil
+		}
+		nilE, nonNilE := nilEdges(errv, true), nilEdges(errv, false)
+		for _, rv := range returnedValues(f, nres-1) {
+			v := strip(rv.Val)
+			switch {
+			case v == strip(errv):
+			case func() bool { k, ok := v.(*ssa.Const); return ok && k.IsNil() }():
+				via := false
+				for b, si := range nilE {
+					if c.onlyViaEdge(f, rv.At, b, si) {
+						via = true
+					}
+				}
+				if !via {
+					return nil
+				}
+			default:
+				via := false
+				for b, si := range nonNilE {
+					if c.onlyViaEdge(f, rv.At, b, si) {
+						via = true
+					}
+				}
+				if !via || !certainlyNonNilError(rv.Val) && !mentions(rv.Val, func(x ssa.Value) bool { return x == errv }) {
+					return nil
+				}
+			}
+		}
+		sites := c.callsIn2(root, f)
+		if len(sites) != 1 {
+			return nil
+		}
+		cur, idx = sites[0], nres-1
 	}
 	return nil
 }
